@@ -159,6 +159,9 @@ static void pool_oracles(int step, int tid) {
         if (pend > 1) oracle("pool: more pending entries than the hand-off queue holds");
         if (c->threadLimit < 1 || c->threadLimit > c->threadCapacity) oracle("pool: threadLimit outside 1..threadCapacity");
         if (c->numThreadsBusy > c->threadCapacity) oracle("pool: more busy threads than threads");
+        /* round 3 (106ca1a): a pool created by the application keeps the size given to ZSTD_createThreadPool, whatever nbWorkers its contexts use */
+        if (c == g_shared && (c->threadCapacity != (size_t)C.pool || c->threadLimit != (size_t)C.pool)) {
+            char b[200]; snprintf(b, sizeof b, "shared pool resized by a context: ZSTD_createThreadPool(%d) now has threadCapacity %zu, threadLimit %zu", C.pool, c->threadCapacity, c->threadLimit); oracle(b); }
         if (step >= 0 && P->snap_valid) {
             if (memcmp(now, P->snap, sizeof now) && zv_mutex_owner(&c->queueMutex) != tid) oracle("pool: a field guarded by queueMutex was written by a thread that does not hold it");
             if (now[3] > P->snap[3] && now[3] > now[4]) oracle("pool: a job was started although numThreadsBusy had reached threadLimit");
